@@ -123,6 +123,13 @@ def main():
                 T = create_type("User%d" % len(created), contains=lambda s, state: True, identity=vt.Generic)
                 created.append(T)
                 _ = VisionsTypeset({vt.Generic, T}).detect_type(pd.Series([1]))
+            elif k == "create_many":
+                # a session that defines many types of its own (more than any small cache in the library holds)
+                many = [create_type("Bulk%d_%d" % (len(created), j), contains=lambda s, state: False, identity=vt.Generic)
+                        for j in range(op.get("n", 150))]
+                created.extend(many)
+                _ = VisionsTypeset({vt.Generic, *many}).detect_type(pd.Series([1]))
+                typesets.clear()            # later calls build their typesets after this
             elif k == "sampled":
                 ts = get_ts(op["ts"])
                 s = pd.Series(["1"] * 1200 + ["a"])
@@ -215,8 +222,11 @@ def main():
                 answers.append(["raises", type(e).__name__])
         probe[name] = answers
     df = pd.DataFrame({"b": ["1", "2"], "a": [1.0, 2.0], "c": [True, False], 10: ["x", "y"], "z": ["2020-01-01", "2020-01-02"]})
-    probe["frame_compare"] = [[repr(k), str(a), str(b)] for k, a, b in F.compare_detect_inference_frame(df, ts)]
-    probe["frame_report"] = F.type_inference_report_frame(df, ts)
+    try:
+        probe["frame_compare"] = [[repr(k), str(a), str(b)] for k, a, b in F.compare_detect_inference_frame(df, ts)]
+        probe["frame_report"] = F.type_inference_report_frame(df, ts)
+    except Exception as e:  # noqa
+        probe["frame_compare"] = {"raises": type(e).__name__}
     probe["typeset_types"] = sorted(str(t) for t in ts.types)
     probe["graph_edges"] = sorted((str(a), str(b), d["style"]) for a, b, d in ts.relation_graph.edges(data=True))
     sys.stdout = real_out
